@@ -1,0 +1,11 @@
+//go:build !verif
+
+// Package vhook holds the verification hooks of /verif (build tag "verif").
+// Without the tag every hook is an empty function that the compiler inlines away.
+package vhook
+
+// Ready is called by a pipeline worker immediately before it sends record idx downstream.
+func Ready(site string, idx int) {}
+
+// Recv is called by a pipeline consumer immediately after it has received record idx.
+func Recv(site string, idx int) {}
